@@ -194,6 +194,8 @@ pub struct World {
     // probes
     pub probes: std::collections::BTreeMap<&'static str, u64>,
     outstanding_ops: u32,
+    /// time of the last transport activity (bytes moved, write refused, server wrote)
+    pub last_io_ms: u64,
 }
 
 pub type Shared = Arc<Mutex<World>>;
@@ -256,6 +258,7 @@ impl World {
             shutdown: false,
             probes: Default::default(),
             outstanding_ops: 0,
+            last_io_ms: 0,
         }
     }
 
@@ -281,6 +284,11 @@ impl World {
         match &ev {
             Ev::Invoke { .. } => self.outstanding_ops += 1,
             Ev::Return { .. } => self.outstanding_ops = self.outstanding_ops.saturating_sub(1),
+            Ev::ClientWrite { .. }
+            | Ev::WritePending
+            | Ev::ClientRead { .. }
+            | Ev::ServerWrite { .. }
+            | Ev::ServerRecv(_) => self.last_io_ms = ms,
             _ => {}
         }
         let state = self.state_code();
